@@ -33,7 +33,7 @@ BASE = [
     ("P", "~Parameter"),
     ("P", "BHT.DEGC 35.5 : t"),
     ("P", "MUD : GEL"),  # a genuine line without a period: neither unit nor description field
-    ("X", "~Xtra"),
+    ("X", "~Xtra {run 1}"),  # braces in a title: the error message is built with str.format
     ("X", "KEY. val : k"),
     ("C", "~Curve"),
     ("C", "DEPT.M : d"),
@@ -44,7 +44,7 @@ BASE = [
 ]
 # insertion sites: index into BASE *before which* the junk line goes
 _AT = lambda text: [t for _, t in BASE].index(text)
-SITES = {"V-mid": 2, "V-end": 3, "W-first": 4, "W-end": _AT("~Parameter"), "P-end": _AT("~Xtra"), "X-first": _AT("KEY. val : k"), "X-end": _AT("~Curve"),
+SITES = {"V-mid": 2, "V-end": 3, "W-first": 4, "W-end": _AT("~Parameter"), "P-end": _AT("~Xtra {run 1}"), "X-first": _AT("KEY. val : k"), "X-end": _AT("~Curve"),
          "W-before-colonless-line": _AT("COMP.  ACME"), "P-before-periodless-line": _AT("MUD : GEL")}
 BOUNDS = {
     "quick": {"junk_cap": 4, "sites": ["V-end", "W-first", "P-end", "X-end", "W-before-colonless-line", "P-before-periodless-line"], "flags": [True, False], "junk_lines": 1, "task_budget_s": 900,
@@ -108,7 +108,7 @@ def harness(ns, params):
         apply_exclusions(inputs)
         # precondition: the junk line's own parse (if any) does not name a steering mnemonic.
         # The real line parser is used to state it, so the notion of "its parse" is lasio's own.
-        sname = {"V": "Version", "W": "Well", "P": "Parameter", "X": "~Xtra"}[site[0]]
+        sname = {"V": "Version", "W": "Well", "P": "Parameter", "X": "~Xtra {run 1}"}[site[0]]
         parsed = None
         if B_decide(Js.truth() if isinstance(Js, SymStr) else bool(Js)) and not B_decide(B(Js.startswith("#"))):
             try:
@@ -136,7 +136,7 @@ def harness(ns, params):
             core.oblige("only-LASHeaderError", False, info=repr(e)[:200])
             return {"observed": {"raised": type(e).__name__}}
         # which section did the junk end up in, if any?
-        sect_key = {"V": "Version", "W": "Well", "P": "Parameter", "X": "Xtra"}[site[0]]
+        sect_key = {"V": "Version", "W": "Well", "P": "Parameter", "X": "Xtra {run 1}"}[site[0]]
         genuine = [t for k, t in BASE if k == site[0]][1:]
         sec = las.sections[sect_key]
         extra = len(sec) - len(genuine)
@@ -239,7 +239,7 @@ def replay(i):
         return {"ok": ok, "detail": "junk %r at %s flag=%s raised LASHeaderError(%s)" % (J, site, flag, e), "observed": {"raised": "LASHeaderError"}}
     except Exception as e:
         return {"ok": False, "detail": "junk %r at %s flag=%s raised %r" % (J, site, flag, e), "observed": {"raised": type(e).__name__}}
-    sect_key = {"V": "Version", "W": "Well", "P": "Parameter", "X": "Xtra"}[site[0]]
+    sect_key = {"V": "Version", "W": "Well", "P": "Parameter", "X": "Xtra {run 1}"}[site[0]]
     snap = _snap(las)
     genuine = ref["sections"][sect_key]
     got = list(snap.get(sect_key, []))
